@@ -38,7 +38,7 @@ ASSUMPTIONS = [
 COMPONENTS = {"real": ["jaxtyping._import_hook (finder, loader, transformer, Typechecker)", "CPython importlib incl. bytecode read/validate/write",
                        "file system (temp dir)"],
               "stub": ["process restart (soft)", "spy typecheckers sim.hsim_spy.a/b", "clock (os.utime from a simulated clock)"]}
-HOOKABLE = ["foo", "foo.sub", "foo.util", "foobar", "foo_bar", "fo", "bar", "bar.baz", "foox", "foox.sub", "chk", "chk.core"]
+HOOKABLE = ["foo", "foo.sub", "foo.util", "foobar", "foo_bar", "fo", "bar", "bar.baz", "foox", "foox.sub", "chk", "chk.core", "nsp", "nsp.inner"]
 
 
 def worker_init():
@@ -160,6 +160,8 @@ def gen(seed, tier="quick"):
             run["disable"] = True  # JAXTYPING_DISABLE=1 in this process: modules are still instrumented, checks are off
         if r.random() < 0.1:
             run["env"] = {"SOURCE_DATE_EPOCH": "315532800"}  # reproducible-build environments
+        if r.random() < 0.08:
+            run["pycache_prefix"] = True
         fr = r.random()
         if fr < 0.12:
             run["faults"] = [{"site": "module.body", "k": r.randrange(1, 6), "exc": r.choice(("RuntimeError", "ValueError", "KeyboardInterrupt"))}]
